@@ -143,7 +143,14 @@ def gen_histories(rng, tier):
         length = rng.choice([1, 2, 3, rng.randrange(1, maxlen + 1), rng.randrange(1, maxlen + 1)])
         ops, cur = [], (16, 1e9)
         for _ in range(length):
-            if rng.random() < 0.12:
+            if rng.random() < 0.15:
+                # most of the time clean() meets a non-default wavelength (and a slot count / custom attributes)
+                if rng.random() < 0.7:
+                    prev_op = ops[-1] if ops and ops[-1]["op"] == "call" else None
+                    if prev_op is not None and rng.random() < 0.5:
+                        prev_op["wl"] = rng.choice(WL_POOL[1:])
+                    else:
+                        ops.append({"op": "call", "wl": rng.choice(WL_POOL[1:]), **({"N": rng.choice(N_POOL)} if rng.random() < 0.5 else {})})
                 ops.append({"op": "clean"})
                 cur = (16, 1e9)
             else:
@@ -166,6 +173,9 @@ def gen_histories(rng, tier):
         [{"op": "call", "kw": {"alpha": 1, "beta": "x"}}, {"op": "call", "kw": {"alpha": 2.5}}, {"op": "call", "sps": 4, "R": 1e9},
          {"op": "clean"}, {"op": "call"}],
         [{"op": "call", "wl": 1310e-9}, {"op": "call"}],                                                 # wavelength falls back
+        [{"op": "call", "sps": 8, "R": 10e9, "wl": 1310e-9, "N": 10}, {"op": "clean"}],                  # f0 must follow the reset
+        [{"op": "call", "wl": 850e-9}, {"op": "clean"}, {"op": "call", "kw": {"alpha": 1}}],
+        [{"op": "call", "wl": 1310e-9}, {"op": "clean"}, {"op": "clean"}],
         [{"op": "call", "sps": 4, "R": 1e9, "N": 1}], [{"op": "call", "sps": 1, "R": 1e9, "N": 1}],
         [{"op": "call", "sps": 3, "R": 1e9, "N": 3}, {"op": "clean"}, {"op": "call", "fs": 4e9}],
         # exceptions
@@ -235,13 +245,19 @@ def _do_op(gv, op):
 
 
 def _hard_reset(gv):
-    """restore the singleton for whoever runs next: clean(), then remove whatever clean() left behind"""
+    """restore the singleton for whoever runs next: clean(), then remove whatever clean() left behind.
+    Never raises; returns the exception text if clean() itself failed (the defaults are then written directly)."""
+    err = None
     try:
         gv.clean()
-    finally:
-        for k in list(vars(gv)):
-            if k not in STANDARD:
-                delattr(gv, k)
+    except Exception as e:  # noqa
+        err = repr(e)[:200]
+        d = vars(gv)
+        d.update(sps=16, R=1e9, fs=16e9, dt=1 / 16e9, wavelength=WL_DEFAULT, f0=C_LIGHT / WL_DEFAULT, N=None, t=None, dw=None, w=None)
+    for k in list(vars(gv)):
+        if k not in STANDARD:
+            delattr(gv, k)
+    return err
 
 
 def run_hist(case):
@@ -276,8 +292,12 @@ def run_hist(case):
             if isinstance(fin.get("t"), np.ndarray) and fin["t"].size <= 1024:
                 res["t_full"] = [float(x) for x in fin["t"]]
                 res["w_full"] = [float(x) for x in fin["w"]]
+    except Exception as e:  # noqa   (gv.clean() of the set-up raised)
+        res.update(status="err", err=exc_enum(e), detail=repr(e)[:300])
     finally:
-        _hard_reset(gv)
+        e2 = _hard_reset(gv)
+        if e2:
+            res["reset_error"] = e2
     return res
 
 
@@ -331,10 +351,16 @@ def _q(tok):
     return Fraction(int(tok))
 
 
+def _fin(x):
+    return isinstance(x, (int, float)) and math.isfinite(x)
+
+
 def _close(x, q, rel=1e-12):
-    """float x against exact rational q"""
+    """float x against exact rational q (a NaN / inf is never close)"""
     if x is None or q is None:
         return x is None and q is None
+    if not _fin(x):
+        return False
     return abs(Fraction(x) - q) <= Fraction(rel) * abs(q) + Fraction(1, 10 ** 300)
 
 
@@ -359,7 +385,7 @@ def _cmp_probe(name, toks, obs, scale_pi, out):
     for i, q, x in zip(obs["idx"], vals, obs["val"]):
         ref = q * Fraction(math.pi) if scale_pi else q
         tol = Fraction(1e-12) * (mx * (Fraction(math.pi) if scale_pi else 1)) + Fraction(1, 10 ** 300)
-        if abs(Fraction(x) - ref) > tol:
+        if not (_fin(x) and abs(Fraction(x) - ref) <= tol):      # `not <=`: a NaN is reported
             out.append(f"{name}[{i}]: model {float(ref)!r}, implementation {x!r}")
             return
 
@@ -380,7 +406,7 @@ def _cmp_state(i, rep, st, out):
     for name, tok, exact in (("R", R, True), ("fs", fs, True), ("dt", dt, False), ("wavelength", wl, False), ("f0", f0, False)):
         q = _q(tok)
         x = st[name]
-        ok = (Fraction(x) == q or float(q) == x or _close(x, q, 1e-13)) if exact else _close(x, q)
+        ok = (_fin(x) and (Fraction(x) == q or float(q) == x or _close(x, q, 1e-13))) if exact else _close(x, q)
         if not ok:
             out.append(f"op {i}: {name} model {float(q)!r}, implementation {x!r}")
     if (N == "none") != (st["N"] is None) or (N != "none" and int(N) != st["N"]):
@@ -406,7 +432,7 @@ def compare_hist(case, res, reqs, replies):
     if not reqs:
         return out
     if res["status"] != "ok":
-        return [f"implementation {res['status']}"]
+        return []           # reported by the oracle (clean-raises / timeout)
     parts = replies[0].split(" ; ")
     if parts[0] != "hist":
         return [f"model reply {replies[0][:80]!r}"]
@@ -435,11 +461,11 @@ def compare_hist(case, res, reqs, replies):
                 mt = max([abs(x) for x in tv] + [Fraction(0)])
                 mw = max([abs(x) for x in wv] + [Fraction(0)]) * pi
                 for k, (q, x) in enumerate(zip(tv, res["t_full"])):
-                    if abs(Fraction(x) - q) > Fraction(1e-12) * mt:
+                    if not (_fin(x) and abs(Fraction(x) - q) <= Fraction(1e-12) * mt):
                         out.append(f"final t[{k}]: model {float(q)!r}, implementation {x!r}")
                         break
                 for k, (q, x) in enumerate(zip(wv, res["w_full"])):
-                    if abs(Fraction(x) - q * pi) > Fraction(1e-12) * mw:
+                    if not (_fin(x) and abs(Fraction(x) - q * pi) <= Fraction(1e-12) * mw):
                         out.append(f"final w[{k}]: model {float(q * pi)!r}, implementation {x!r}")
                         break
     return out
@@ -452,7 +478,17 @@ def _truthy(x):
 
 
 def _rel(a, b, tol=1e-12):
+    """relative closeness; False for None / NaN / inf operands (`<=` form, so a NaN is never accepted)"""
+    if not (_fin(a) and _fin(b)):
+        return False
     return abs(a - b) <= tol * max(abs(a), abs(b)) + 1e-300
+
+
+def _div(a, b):
+    try:
+        return a / b
+    except (ZeroDivisionError, TypeError):
+        return float("nan")
 
 
 def oracle_hist(case, res):
@@ -460,6 +496,10 @@ def oracle_hist(case, res):
     v = []
     if res["status"] == "timeout":
         return [("C14:timeout", f"gv history did not return: {res.get('detail')}")]
+    if res["status"] == "err":
+        return [("C14:clean-raises", f"gv.clean() / the set-up of the history raised: {res.get('detail')}")]
+    if res.get("reset_error"):
+        v.append(("C14:clean-raises", f"gv.clean() after the history {str(case['ops'])[:200]} raised {res['reset_error']}"))
     if not res.get("consts_ok"):
         v.append(("C14:constants", "scipy.constants.c / pi are not the assumed values"))
     prev = res["start"]
@@ -523,12 +563,18 @@ def oracle_hist(case, res):
         # grid consistency for the values now in force
         if st["sps_type"] != "int":
             v.append(("C14:sps-int", f"sps is {st['sps_type']} {where}"))
+        if not all(_fin(st[k]) for k in ("sps", "R", "fs", "dt", "wavelength", "f0")):
+            v.append(("C14:nonfinite", f"a grid field is missing / NaN / inf {where}: " +
+                      str({k: st[k] for k in ("sps", "R", "fs", "dt", "wavelength", "f0")})))
+            break
         if commensurate and not _rel(st["fs"], st["R"] * st["sps"]):
             v.append(("C14:fs=R*sps", f"fs={st['fs']!r} R={st['R']!r} sps={st['sps']!r} {where}"))
-        if not _rel(st["dt"], 1 / st["fs"]):
-            v.append(("C14:dt", f"dt={st['dt']!r} != 1/fs={1 / st['fs']!r} {where}"))
-        if not _rel(st["f0"], C_LIGHT / st["wavelength"]):
+        if not _rel(st["dt"], _div(1, st["fs"])):
+            v.append(("C14:dt", f"dt={st['dt']!r} != 1/fs={_div(1, st['fs'])!r} {where}"))
+        if not _rel(st["f0"], _div(C_LIGHT, st["wavelength"])):
             v.append(("C14:f0", f"f0={st['f0']!r} != c/wavelength {where}"))
+        if v:
+            break               # the scalar fields are already inconsistent: do not evaluate the grids on them
         if st["N"] is not None:
             n = st["N"] * st["sps"]
             t, w = st["t"], st["w"]
@@ -541,12 +587,12 @@ def oracle_hist(case, res):
                 wref = 2 * np.pi * np.fft.fftshift(np.fft.fftfreq(n, d=1 / st["fs"]))
                 scale = float(np.max(np.abs(wref))) if n > 1 else 1.0
                 for j, x in zip(w["idx"], w["val"]):
-                    if abs(x - wref[j]) > 1e-12 * scale + 1e-300:
+                    if not (abs(x - wref[j]) <= 1e-12 * scale + 1e-300):
                         v.append(("C14:w-grid", f"w[{j}]={x!r} != {wref[j]!r} on the current fs={st['fs']!r} {where}"))
                         break
                 # t spans 0 … N*sps*dt uniformly (library convention linspace(…, endpoint=True))
                 stop = n * st["dt"]
-                if abs(t["val"][0]) > 0 or (n > 1 and not _rel(t["val"][-1], stop, 1e-12)) or t.get("uniform") is False:
+                if not (abs(t["val"][0]) <= 0) or (n > 1 and not _rel(t["val"][-1], stop, 1e-12)) or t.get("uniform") is False:
                     v.append(("C14:t-grid", f"t = [{t['val'][0]!r} … {t['val'][-1]!r}] uniform={t.get('uniform')}, required "
                               f"0 … N*sps*dt={stop!r} {where}"))
         prev = st
